@@ -56,6 +56,15 @@ def make_app_classes():
                 # the handler's own upstream request (proxy / lookup style) finds no peer: the library's own exception type
                 from diameter.node import NotRoutable
                 raise NotRoutable("no upstream peer (injected by the environment)")
+            if self.behaviour == "answer_twice":
+                # answers from within handle_request (the connection's own reader thread), and then once more: the second submission
+                # must be refused, whatever thread it comes from
+                self.send_answer(self.generate_answer(message, result_code=2001))
+                try:
+                    self.send_answer(self.generate_answer(message, result_code=2001))
+                    self.nw.world.obs("inline_second_answer", "sent")
+                except Exception as e:
+                    self.nw.world.obs("inline_second_answer", type(e).__name__)
             if self.behaviour == "answer":
                 self.send_answer(self.generate_answer(message, result_code=2001))
             if self.behaviour == "answer_norc":        # an answer that carries no Result-Code (e.g. Experimental-Result only)
